@@ -216,7 +216,7 @@ pub fn run(ctx: &mut Ctx) {
         }
         let mut rng = ctx.rng.fork();
         let t = match i % 5 {
-            _ if i % 1501 == 7 && !ctx.miri => gen::big_doc(&mut rng),
+            _ if i % 8009 == 7 && !ctx.miri => gen::big_doc(&mut rng, ctx.tier == crate::monitor::Tier::Thorough && i % 5 == 0),
             0 => gen::doc(&mut rng, &gen::DocCfg { max_depth: 6, max_fan: 4, nonfinite: true, container_p: 6 }),
             1 => gen::scalar(&mut rng, true),
             _ => gen::doc(&mut rng, &gen::DOC_DEFAULT),
